@@ -3,6 +3,9 @@
    Input (argv[1]): one record per line, unsigned 32-bit patterns in decimal
        D ax ay az bx by bz r            r  = Float32bits(a.Dot(b))
        X ax ay az bx by bz rx ry rz     r* = Float32bits of the components of Cross(a, b)
+       N cx cy cz ex ey ez rx ry rz     calculateNormal(center, extents)          (coq/GridFloat2.v normal32)
+       O a(6) b(6) r                    doHorizontalPlanesOverlap(a, b), r = 0 / 1 (overlap32; center and extents of each)
+       I from(3) to(3) c(3) e(3) n(3) hit t   IntersectQuad(ray, quad)            (intersect32)
    Any NaN equals any NaN (payload and sign of a NaN are not part of the model).  Empty lines and
    lines starting with '#' are skipped.
    Output: one line `BAD line <n>: <record> expected <model bits>` per disagreement or malformed
@@ -43,6 +46,31 @@ let () =
                        else
                          let ((ex, ey), ez) = cross_bits ax ay az bx by bz in
                          report raw (Printf.sprintf "expected %d %d %d" (int_of_z ex) (int_of_z ey) (int_of_z ez))
+                   | "N", [cx; cy; cz; ex; ey; ez; rx; ry; rz] ->
+                       (* calculateNormal(center, extents) *)
+                       if normal_agrees cx cy cz ex ey ez rx ry rz then begin
+                         incr ok;
+                         (* the conclusions of the theorems, on the implementation's own result: a horizontal quad with
+                            positive extents has the normal (0,1,0) numerically; two non-zero extents give a non-zero normal *)
+                         let c = vec32_of_bits cx cy cz and e = vec32_of_bits ex ey ez in
+                         let i = int_of_z in
+                         let zero b = (i b) land 0x7FFFFFFF = 0 in
+                         if horizontal_input c e && not (zero rx && i ry = 1065353216 && zero rz) then
+                           report raw "(the normal of a horizontal quad with positive extents is not (0,1,0): C20f_normal_horizontal)";
+                         if two_nonzero e && zero rx && zero ry && zero rz then
+                           report raw "(zero normal for a quad with two non-zero extents: C20f_normal_nonzero)"
+                       end else
+                         let ((a, b), c) = normal_bits cx cy cz ex ey ez in
+                         report raw (Printf.sprintf "expected %d %d %d" (int_of_z a) (int_of_z b) (int_of_z c))
+                   | "O", [a1; a2; a3; a4; a5; a6; b1; b2; b3; b4; b5; b6; r] ->
+                       if overlap_bits a1 a2 a3 a4 a5 a6 b1 b2 b3 b4 b5 b6 = (int_of_z r = 1) then incr ok
+                       else report raw "(doHorizontalPlanesOverlap differs from overlap32)"
+                   | "I", [f1; f2; f3; t1; t2; t3; c1; c2; c3; e1; e2; e3; n1; n2; n3; h; t] ->
+                       let ry = ray32_of_bits f1 f2 f3 t1 t2 t3 and q = quad32_of_bits c1 c2 c3 e1 e2 e3 n1 n2 n3 in
+                       if intersect_agrees ry q (int_of_z h = 1) t then incr ok
+                       else
+                         let (mh, mt) = intersect_bits ry q in
+                         report raw (Printf.sprintf "expected %d %d" (if mh then 1 else 0) (int_of_z mt))
                    | _ -> report raw "(malformed: unknown tag or wrong number of fields)"))
          | [] -> ()
        end
